@@ -1,1 +1,4 @@
+import Props.C04
+import Props.C05
+import Props.C05b
 import Props.C18
